@@ -179,60 +179,6 @@ impl Builder {
         let mut inst = dr::Instruction::new(spirv::Op::Unreachable, None, None, vec![]);
         self.insert_end_block(insert_point, inst)
     }
-    #[doc = "Appends an OpLifetimeStart instruction and ends the current block."]
-    pub fn lifetime_start(&mut self, pointer: spirv::Word, size: u32) -> BuildResult<()> {
-        #[allow(unused_mut)]
-        let mut inst = dr::Instruction::new(
-            spirv::Op::LifetimeStart,
-            None,
-            None,
-            vec![dr::Operand::IdRef(pointer), dr::Operand::LiteralBit32(size)],
-        );
-        self.end_block(inst)
-    }
-    #[doc = "Insert an OpLifetimeStart instruction and ends the current block."]
-    pub fn insert_lifetime_start(
-        &mut self,
-        insert_point: InsertPoint,
-        pointer: spirv::Word,
-        size: u32,
-    ) -> BuildResult<()> {
-        #[allow(unused_mut)]
-        let mut inst = dr::Instruction::new(
-            spirv::Op::LifetimeStart,
-            None,
-            None,
-            vec![dr::Operand::IdRef(pointer), dr::Operand::LiteralBit32(size)],
-        );
-        self.insert_end_block(insert_point, inst)
-    }
-    #[doc = "Appends an OpLifetimeStop instruction and ends the current block."]
-    pub fn lifetime_stop(&mut self, pointer: spirv::Word, size: u32) -> BuildResult<()> {
-        #[allow(unused_mut)]
-        let mut inst = dr::Instruction::new(
-            spirv::Op::LifetimeStop,
-            None,
-            None,
-            vec![dr::Operand::IdRef(pointer), dr::Operand::LiteralBit32(size)],
-        );
-        self.end_block(inst)
-    }
-    #[doc = "Insert an OpLifetimeStop instruction and ends the current block."]
-    pub fn insert_lifetime_stop(
-        &mut self,
-        insert_point: InsertPoint,
-        pointer: spirv::Word,
-        size: u32,
-    ) -> BuildResult<()> {
-        #[allow(unused_mut)]
-        let mut inst = dr::Instruction::new(
-            spirv::Op::LifetimeStop,
-            None,
-            None,
-            vec![dr::Operand::IdRef(pointer), dr::Operand::LiteralBit32(size)],
-        );
-        self.insert_end_block(insert_point, inst)
-    }
     #[doc = "Appends an OpTerminateInvocation instruction and ends the current block."]
     pub fn terminate_invocation(&mut self) -> BuildResult<()> {
         #[allow(unused_mut)]
@@ -316,23 +262,6 @@ impl Builder {
         if let Some(v) = payload {
             inst.operands.push(dr::Operand::IdRef(v));
         }
-        self.insert_end_block(insert_point, inst)
-    }
-    #[doc = "Appends an OpDemoteToHelperInvocation instruction and ends the current block."]
-    pub fn demote_to_helper_invocation(&mut self) -> BuildResult<()> {
-        #[allow(unused_mut)]
-        let mut inst =
-            dr::Instruction::new(spirv::Op::DemoteToHelperInvocation, None, None, vec![]);
-        self.end_block(inst)
-    }
-    #[doc = "Insert an OpDemoteToHelperInvocation instruction and ends the current block."]
-    pub fn insert_demote_to_helper_invocation(
-        &mut self,
-        insert_point: InsertPoint,
-    ) -> BuildResult<()> {
-        #[allow(unused_mut)]
-        let mut inst =
-            dr::Instruction::new(spirv::Op::DemoteToHelperInvocation, None, None, vec![]);
         self.insert_end_block(insert_point, inst)
     }
 }
